@@ -438,16 +438,22 @@ func vcPlan(c *vk.Ctx, prop *vcProp) []vcPlanItem {
 		}
 		plan = append(plan, vcPlanItem{U: us[un], Base: base, Pre: pre, Depth: depth, Tree: tree})
 	}
-	for _, un := range vcPropUniverses(prop) {
-		bases := []string{"empty", "full", "flap", "dangling"}
-		if qb, ok := prop.QuickBases[un]; ok && c.Quick() {
-			bases = qb
-		}
-		for _, base := range bases {
-			add(un, base, 3, false)
-		}
-		if c.Thorough() {
-			add(un, "alt", 3, false)
+	// base states outermost, universes innermost: if a deadline cuts the run short, every universe has
+	// at least had its first base states explored
+	for _, base := range []string{"empty", "full", "flap", "dangling", "alt"} {
+		for _, un := range vcPropUniverses(prop) {
+			bases := []string{"empty", "full", "flap", "dangling"}
+			if qb, ok := prop.QuickBases[un]; ok && c.Quick() {
+				bases = qb
+			}
+			if c.Thorough() {
+				bases = append(bases, "alt")
+			}
+			for _, bb := range bases {
+				if bb == base {
+					add(un, base, 3, false)
+				}
+			}
 		}
 	}
 	if c.Quick() {
